@@ -1,6 +1,6 @@
 (* C07 - SAC objectives (sac/sac.py train): soft clipped-double-Q critic, entropy-regularised actor,
    temperature. *)
-From Coq Require Import Reals QArith Qminmax Qabs List.
+From Coq Require Import Reals QArith Qreals Qminmax Qabs List.
 From SB3V Require Import Model.LossCommon.
 Import ListNotations.
 Local Open Scope R_scope.
@@ -46,3 +46,16 @@ Definition sac_actor_Q (alpha : Q) (lps : list Q) (qpi_rows : list (list Q)) : Q
 Definition sac_temp_Q (log_alpha target_entropy : Q) (lps : list Q) : Q * Q :=
   let s := qmean (map (fun lp => lp + target_entropy) lps) in
   (Qred (- (log_alpha * s)), Qred (- s)).
+
+(* ---- set-up of the temperature (SAC._setup_model) ---- *)
+(* target_entropy: "auto" -> -prod(action_space.shape); otherwise the given number *)
+Definition sac_target_entropy_Q (given : option Q) (shape : list Z) : Q :=
+  match given with Some h => h | None => - inject_Z (fold_right Z.mul 1%Z shape) end.
+(* ent_coef: a number (fixed), "auto" (learned, initial value 1.0) or "auto_<x>" (learned, initial value x) *)
+Inductive ent_coef_spec : Type := EntFixed (a : Q) | EntAuto (init : option Q).
+Definition sac_init_alpha_Q (s : ent_coef_spec) : Q :=
+  match s with EntFixed a => a | EntAuto None => 1 | EntAuto (Some x) => x end.
+Definition sac_learned (s : ent_coef_spec) : bool := match s with EntFixed _ => false | EntAuto _ => true end.
+Local Open Scope R_scope.
+(* log_ent_coef = log(ones(1) * init_value) *)
+Definition sac_log_alpha_init (s : ent_coef_spec) : R := ln (Q2R (sac_init_alpha_Q s)).
